@@ -46,6 +46,11 @@ func main() {
 		}
 	case "manifest":
 		manifest()
+	case "storeops":
+		c := rules.NewCtx(&rules.Prop{ID: "X"}, "quick")
+		for _, op := range c.StoreOps("main") {
+			fmt.Printf("%-6s %-70q %-70s %s\n", op.Op, c.Engine("main").T.LayoutString(op.Prefix)+"|"+op.Layout, op.Fn, op.Where)
+		}
 	default:
 		fmt.Println("unknown command")
 		os.Exit(2)
